@@ -44,6 +44,9 @@ def _register_capabilities_hooks(converter: cattrs.Converter) -> cattrs.Converte
     ) -> Union[OptionalPrimitive, lsp_types.TextDocumentSyncOptions]:
         if object_ is None:
             return None
+        if isinstance(object_, int) and not isinstance(object_, bool):
+            # TextDocumentSyncKind is a closed enumeration: reject other numbers.
+            return converter.structure(object_, lsp_types.TextDocumentSyncKind)
         if isinstance(object_, (bool, int, str, float)):
             return object_
         return converter.structure(object_, lsp_types.TextDocumentSyncOptions)
